@@ -24,15 +24,15 @@ PROPS = {
         "assumptions": "L3",
     },
     "C03": {
-        "units": ["l1_error_api"],
+        "units": ["l1_error_api", "c03_error_spans"],
         "gen": [{"corpus": "structs", "mode": "full"}, {"corpus": "enums", "mode": "full"}, {"corpus": "elems", "mode": "full"}],
         "classes": r"postcondition|invariant|post-condition of closure",
         "level_text": "with_span is proved first-writer-wins on the real body (r == e_with_span(self, span(node))); the emitted parsers are proved equal to an oracle in which "
                       "every unknown/duplicate/literal/conversion error carries the span of the offending item itself and missing-field errors none, with Span opaque (so attaching another node's span fails).",
-        "level_note": "'inside the item' is modelled as equality with the span of that node (geometric containment is syn's). Proof per program; programs sampled. Span hand-down in flatten and trait default methods: see not_covered until those units land.",
+        "level_note": "'inside the item' is modelled as equality with the span of that node (geometric containment is syn's). Proof per program; programs sampled. Span hand-down in flatten (into_vec, proved against flat_spans; F5 fixed in /repo) is unit c03_error_spans; the trait default methods' span attachment is proved in unit c15_routing (C15).",
         "design_ref": "DESIGN.md section 6 C03",
         "assumptions": "L3",
-        "not_covered": ["Error::into_vec span hand-down (F5)", "FromMeta default methods' span attachment", "enum receivers' spans (F7)"],
+        "not_covered": ["From<Error> for syn::Error (explicit span else call site + path in the message)", "SpannedValue/Flag/PathList spans are under C12/C13"],
     },
     "C08": {
         "units": [],
@@ -226,8 +226,48 @@ PROPS = {
         "not_covered": ["codegen stage (FromMetaImpl/TraitImpl/Variant to_tokens): its tuple panics are excluded only through FromMetaOptions::new's postcondition, the skeleton itself is not under contract",
                         "FdiOptions/FromFieldOptions/FromVariantOptions/FromTypeParamOptions::new", "DeriveInputShapeSet::from_list segments.first().unwrap()", "derive::* entry points and Error::write_errors"],
     },
+    "C11": {
+        "units": ["c11_ints", "c11_nonzero", "c11_misc"],
+        "classes": r"postcondition|post-condition of closure|assertion failed|precondition not satisfied",
+        "level_text": "Every instance of from_meta_num! (24 integer targets incl. NonZero) and from_meta_float! (f32, f64), instantiated from darling's own macro_rules on every run, and bool/char/String/PathBuf are proved on their real bodies: "
+                      "from_string(s) == (std_parse::<T>(s) ? Ok(v) : Err(unknown_value(s))); from_value(lit) == Str -> that on the literal's value, Int/Float -> syn's base10_parse verdict through Error::from, any other kind -> unexpected_lit_type, "
+                      "every Err spanned with the literal unless already spanned; char == the single character iff the string has exactly one; bool word == true. Through the trait's default dispatchers (c15_routing) each type's from_meta/from_nested_meta "
+                      "is proved equal to a per-form table (word/list/non-literal expression rejected by form, groups transparent at any depth), and every rejection carries a span.",
+        "level_note": "Delegation proved; numeric semantics (range, radix, underscores, suffix, zero for NonZero, sign) live in std's FromStr and syn's base10_parse and are TRUSTED as uninterpreted functions of exactly the user's text / literal. "
+                      "No trim/cast/wrap/saturate/default can be inserted without breaking an equality. `x = -5` is a unary expression for syn and is rejected by form (documented: negative numbers must be quoted).",
+        "design_ref": "DESIGN.md section 6 C11",
+        "assumptions": [
+            "str::parse::<T> == std_parse::<T>(chars) (assume_specification on the real call), LitInt/LitFloat::base10_parse::<T> == lit_int_parse/lit_float_parse(lit): uninterpreted",
+            "PathBuf opaque: PathBuf::from(&str) == pathbuf_of(chars) (R11 .into() -> .into_pathbuf()); String/chars()/Chars::next via vstd",
+            "FromMeta defaults through default_ensures proved in c15_routing; Error constructors through contracts proved in l1_error_api/c15_routing; syn mirror prelude/meta_syn.vrs; R17 axiom",
+            "R3: |_| .. / |e| e.with_span(value) closures typed with an ensures proved against the closure body; R4: .map_err(Error::from) eta-expanded; R8 macro instantiation",
+            "str::trim given a content-free contract (prelude/std_trim.vrs) only so that trim-inserting edits are decided",
+        ],
+        "not_covered": ["AtomicBool, ident_case::RenameRule", "that quoted and unquoted plain-decimal spellings denote the same value (std vs syn parser agreement: trusted)", "termination of the default from_expr on nested groups (R17)"],
+    },
+    "C13": {
+        "units": ["c13_syn_values", "c13_parse_expr", "c13_parse_expr_agree", "c13_callable_group"],
+        "classes": r"postcondition|post-condition of closure|assertion failed|precondition not satisfied|invariant",
+        "level_text": "syn::Expr, syn::Path, syn::Ident, from_syn_expr_type! x3, from_syn_parse! x18, from_meta_lit! x8 (from_value), syn::Lit, syn::Meta, Vec<WherePredicate>, Punctuated<T,P>, PathList::from_list, Callable::from_expr, IdentString, "
+                      "preserve_str_literal and parse_str_literal are proved on their real bodies: bare form => Ok(the user's node itself); quoted form => Ok(what syn's parser for T makes of exactly that literal / string) or unknown value at the literal; "
+                      "other literal kinds / expression forms => unexpected type, spanned; invisible groups transparent at any depth (decreases proved); PathList keeps every word in order or fails at the first non-word, spanned. "
+                      "Per-form tables through the default dispatchers for Expr/Path/Ident/ExprArray/Type/Visibility/LitInt/Lit/Meta, every rejection spanned. The helper statements differ only for string literals (lemma_helpers_agree).",
+        "level_note": "Token-for-token is equality of the returned node with the user's node (clone == node). syn's grammar is TRUSTED (uninterpreted litstr_parse/syn_parse_str). The helper-agreement obligation (c13_parse_expr_agree, F6) and the group obligation of Callable "
+                      "(c13_callable_group, F10) failed on the pinned tree and hold since fix commits 24bb420 / cab553a.",
+        "design_ref": "DESIGN.md section 6 C13",
+        "assumptions": [
+            "prelude/meta_syn_values.vrs: widened syn mirror (opaque Ident/Type*/Visibility/WherePredicate/Punctuated, ExprPath{path}), Clone == equal node, syn::parse_str / LitStr::parse / parse_terminated / LitStr::new / Path::get_ident uninterpreted",
+            "`::syn::Lit` in signatures resolved by `extern crate self as syn` + module wrap (name resolution only)",
+            "R2 Punctuated.into_iter().collect() -> into_vec() (items in order); R11 format!(\"where {}\", s) -> fmt_where(s) == \"where \" + s; R4 parse_with(Punctuated::parse_terminated) -> parse_terminated(); R3/R8/R15/R6 as elsewhere",
+            "FromMeta defaults / Error constructors through contracts proved in c15_routing / l1_error_api",
+        ],
+        "not_covered": ["Vec<syn::Lit*> (from_list/from_value/from_expr) and from_numeric_array! x5: iterator .map().collect::<Result<Vec<_>>>() chains not rewritten (observation: Vec<u8>::from_expr looks through only one group level per element)",
+                        "bare and quoted spellings give EQUAL values (needs parse(print(x)) == x for syn)", "PathList::new/to_strings, Callable From impls, IdentString::map and its Eq/Hash/Display impls"],
+    },
     "C07": {
-        "units": [],
+        "ignore_tags": True,
+        "classes_text": r"assertion failed :: .*(__live|__armed)",
+        "units": ["c11_ints", "c11_nonzero", "c11_misc", "c13_syn_values", "c12_wrappers", "c15_routing", "c18_shape"],
         "gen": [{"corpus": "structs", "mode": "full"}, {"corpus": "enums", "mode": "full"}, {"corpus": "elems", "mode": "full"}],
         "classes": r"precondition not satisfied|overflow|underflow|division by zero|index out of|unreachable|panic",
         "level_text": "Every expect()/unwrap/index/arithmetic site and every accumulator-armed precondition in the emitted parsers is a proved Verus precondition for all inputs "
